@@ -27,7 +27,12 @@ class DiskFull(OSError):
     """The same failure as an OSError."""
 
 
-FAILURE_KINDS = {"E": InjectedStorageError, "K": ShardOffline, "O": DiskFull}
+class Interrupted(BaseException):
+    """The operation is interrupted inside a store access (KeyboardInterrupt, task
+    cancellation): not an Exception.  The caller catches it and carries on."""
+
+
+FAILURE_KINDS = {"E": InjectedStorageError, "K": ShardOffline, "O": DiskFull, "B": Interrupted}
 
 
 _NOTHING = object()
@@ -186,3 +191,21 @@ class SimDB:
     def take_alarms(self):
         a, self.alarms = self.alarms, []
         return a
+
+
+class _DictBase(dict):
+    def __init__(self, *a, **k):
+        dict.__init__(self)
+
+
+class SimDictDB(SimDB, _DictBase):
+    """The same simulated store as a *dict subclass* that does all its work in the
+    overridden item protocol (a write-through / journaling store).  The inherited C-level
+    dict methods (get, update, setdefault, items, ...) exist but bypass the overrides and
+    act on the empty base dict: library code that uses them reads nothing and its writes
+    are never seen again — which is what happens to such stores in real use."""
+
+
+def make_store(cfg, initial=None):
+    """Store flavour of a run: the minimal object (default) or the dict subclass."""
+    return (SimDictDB if (cfg or {}).get("store") == "dict" else SimDB)(initial)
